@@ -19,8 +19,8 @@ import numpy as np
 from ..kit import cnat, cnatl, cq, cql, cstr, cbool, clist, cz, frac
 
 HDR = ("From Coq Require Import String.\nFrom Coq Require Import List ZArith QArith.\n"
-       "From NV.Lib Require Import Harness.\nFrom NV.Generated Require Import NiftiTables.\n"
-       "From NV.C03 Require Import Model Exec.\nOpen Scope string_scope.\n")
+       "From NV.Lib Require Import Harness.\nFrom NV.Generated Require Import NiftiTables NiftiUnits.\n"
+       "From NV.C03 Require Import Model Exec UnitsModel ExecUnits.\nOpen Scope string_scope.\n")
 
 SPACES = ["scanner", "aligned", "talairach", "mni", "unknown"]
 SUF = ["x=L->R", "y=P->A", "z=I->S"]
@@ -662,7 +662,7 @@ def compare_terms(ck, terms, meta, label):
         if ok:
             continue
         try:
-            show = {"nipy2nifti": "show_n2n %s", "roundtrip": "show_rt %s", "load": "show_load %s", "idem": "show_idem %s",
+            show = {"nipy2nifti": "show_n2n %s", "roundtrip": "show_rt %s", "load": "show_load_u %s", "idem": "show_idem %s",
                     "ftl": "find_time_like Z %s", "ftype": "type_from_filename %s"}[kind] % args
             mv = ck.coq_show(HDR, show)[:1500]
         except Exception as e:  # noqa
@@ -839,14 +839,25 @@ def section_nifti2nipy(ck, impl):
             if io["data"] != o["data"] or [r[:3] for r in io["lin"][:3]] != [[tomm(v) for v in r[:3]] for r in o["aff"]] \
                     or io["trn"][:3] != [tomm(r[3]) for r in o["aff"]]:
                 ck.fail("nifti2nipy/data-or-xyz-changed", "nifti2nipy changed data order or the xyz affine", rep)
+            # micron: one float division by 1000. per entry; canonicalised to the exact quotient the model computes
+            # when within 2^-50 relative (meter: the product is exact for the generator's dyadic entries)
+            if xu == "micron":
+                for i in range(3):
+                    for j in range(3):
+                        ex = o["aff"][i][j] / 1000
+                        if abs(io["lin"][i][j] - ex) <= abs(ex) * Fraction(1, 2 ** 50):
+                            io["lin"][i][j] = ex
+                    ex = o["aff"][i][3] / 1000
+                    if abs(io["trn"][i] - ex) <= abs(ex) * Fraction(1, 2 ** 50):
+                        io["trn"][i] = ex
             exp = ciobs(io)
         else:
             exp = cerr(code)
         args = "(mk_nimg %s %s %s %s %s %s %s %s)" % (cqmat(o["aff"]), cstr(o["sform"]), cstr(o["qform"]), coptl(o["dim_info"]),
                                                      cstr(o["tunits"]), cql(o["pixdim"]), cq(o["toffset"]), cnatl(o["shape"]))
-        if xu in ("mm", "unknown"):
-            terms.append("load_agrees %s %s" % (args, exp))
-            meta.append(("load", None, rep, args, code, []))
+        args = "%s %s" % (cstr(xu), args)
+        terms.append("load_agrees_u %s %s" % (args, exp))
+        meta.append(("load", None, rep, args, code, []))
     compare_terms(ck, terms, meta, "nifti2nipy")
     ck.section("nifti2nipy", cases=len(terms), load_save_load_chains=chain)
 
